@@ -247,12 +247,14 @@ class AbsSpectrumCalculator(EnergyUnitsManaged):
             
         # Fourier transform the result
         
-        ft = dd*numpy.fft.hfft(at)*ta.step
+        # the transform is taken on the 2*Nt points of the frequency axis
+        Nt = ta.length #len(ta.data)        
+        ft = dd*numpy.fft.hfft(at, n=2*Nt)*ta.step
         ft = numpy.fft.fftshift(ft)
         # invert the order because hfft is a transform with -i
-        ft = numpy.flipud(ft)   
+        # (frequency w goes to -w, the first point stays in place)
+        ft = numpy.roll(numpy.flipud(ft), 1)
         # cut the center of the spectrum
-        Nt = ta.length #len(ta.data)        
         return ft[Nt//2:Nt+Nt//2]
 
         
@@ -382,12 +384,14 @@ class AbsSpectrumCalculator(EnergyUnitsManaged):
         #
         # Fourier transform of the time-dependent result
         #
-        ft = numpy.fft.hfft(at)*time.step
+        # the transform is taken on the 2*Nt points of the frequency axis
+        Nt = time.length #len(ta.data)        
+        ft = numpy.fft.hfft(at, n=2*Nt)*time.step
         ft = numpy.fft.fftshift(ft)
         # invert the order because hfft is a transform with -i
-        ft = numpy.flipud(ft)   
+        # (frequency w goes to -w, the first point stays in place)
+        ft = numpy.roll(numpy.flipud(ft), 1)
         # cut the center of the spectrum
-        Nt = time.length #len(ta.data)        
         data = ft[Nt//2:Nt+Nt//2]
        
         #
